@@ -26,7 +26,6 @@ def set_cache_maxsize(maxsize=0):
     _contractions._meta_tensordot_f2m = lru_cache(maxsize)(_contractions._meta_tensordot_f2m.__wrapped__)
     _contractions._meta_tensordot_fc = lru_cache(maxsize)(_contractions._meta_tensordot_fc.__wrapped__)
     _contractions._meta_tensordot_nf = lru_cache(maxsize)(_contractions._meta_tensordot_nf.__wrapped__)
-    _contractions._meta_mask = lru_cache(maxsize)(_contractions._meta_mask.__wrapped__)
     _contractions._common_inds = lru_cache(maxsize)(_contractions._common_inds.__wrapped__)
     _contractions._meta_swap_gate = lru_cache(maxsize)(_contractions._meta_swap_gate.__wrapped__)
     _contractions._meta_swap_gate_charge = lru_cache(maxsize)(_contractions._meta_swap_gate_charge.__wrapped__)
@@ -39,11 +38,13 @@ def set_cache_maxsize(maxsize=0):
     _merging._leg_structure_combine_charges_prod = lru_cache(maxsize)(_merging._leg_structure_combine_charges_prod.__wrapped__)
     _merging._meta_fuse_hard = lru_cache(maxsize)(_merging._meta_fuse_hard.__wrapped__)
     _merging._meta_unfuse_hard = lru_cache(maxsize)(_merging._meta_unfuse_hard.__wrapped__)
+    _merging._meta_mask = lru_cache(maxsize)(_merging._meta_mask.__wrapped__)
     _algebra._meta_addition = lru_cache(maxsize)(_algebra._meta_addition.__wrapped__)
     # modules that imported a cached function by name have to see the new object
     _contractions._meta_unmerge_matrix = _merging._meta_unmerge_matrix
     _contractions._meta_fuse_hard = _merging._meta_fuse_hard
     linalg._meta_unmerge_matrix = _merging._meta_unmerge_matrix
+    _contractions._meta_mask = _merging._meta_mask
 
 
 def clear_cache():
@@ -52,7 +53,7 @@ def clear_cache():
     _contractions._meta_tensordot_f2m.cache_clear()
     _contractions._meta_tensordot_fc.cache_clear()
     _contractions._meta_tensordot_nf.cache_clear()
-    _contractions._meta_mask.cache_clear()
+    _merging._meta_mask.cache_clear()
     _contractions._common_inds.cache_clear()
     _contractions._meta_swap_gate.cache_clear()
     _contractions._meta_swap_gate_charge.cache_clear()
@@ -81,7 +82,7 @@ def get_cache_info():
             "tensordot_nf": _contractions._meta_tensordot_nf.cache_info(),
             "tensordot_common_inds": _contractions._common_inds.cache_info(),
             "broadcast": _contractions._meta_broadcast.cache_info(),
-            "mask": _contractions._meta_mask.cache_info(),
+            "mask": _merging._meta_mask.cache_info(),
             "trace": _contractions._meta_trace.cache_info(),
             "vdot": _contractions._meta_vdot.cache_info(),
             "swap_gate": _contractions._meta_swap_gate.cache_info(),
